@@ -3,11 +3,11 @@ INVARIANT AllOK
 VIEW McView
 CHECK_DEADLOCK FALSE
 CONSTANTS
-  Sizes <- PrintSizes
+  Sizes <- DumpSizesQ
   Limits <- Lim0
-  Fills <- NoFill
-  Alphabet <- PrintAlphabet
-  Resizes <- PrintResizes
+  Fills <- DumpFills
+  Alphabet <- DumpAlphabet
+  Resizes <- NoResize
   MaxDepth = 3
   Emit = TRUE
-  CheckDump = FALSE
+  CheckDump = TRUE
